@@ -94,7 +94,12 @@ def report_issue(ctx, issue, shrink=True):
   K = _k1()
   rep = issue['replay']
   kind, what = issue['kind'], issue['what']
-  if rep.get('history') is not None and rep.get('bundle') is not None and shrink:
+  if rep.get('whole_history') and rep.get('history') is not None and shrink:
+    try:
+      rep = {'history': K.shrink_history_issue(rep['history'], kind), 'whole_history': True, 'kind': kind}
+    except Exception:
+      pass
+  elif rep.get('history') is not None and rep.get('bundle') is not None and shrink:
     try:
       h, b = K.shrink_issue(rep['history'], rep['bundle'], issue['prop'], kind)
       rep = {'history': h, 'bundle': b, 'kind': kind}
